@@ -7,11 +7,12 @@ import numpy as np
 from vf import gem
 from vf.report import Report
 
-QUICK = [((2, 2, 4), 1.0), ((3, 2, 4), 1.0), ((2, 3, 6), 1.0), ((1, 3, 6), 1.0), ((3, 3, 6), 0.047), ((2, 4, 8), 0.047)]
+QUICK = [((2, 2, 4), 1.0), ((3, 2, 4), 1.0), ((2, 3, 6), 1.0), ((1, 3, 6), 1.0), ((3, 3, 6), 0.016), ((2, 4, 8), 0.03)]
 THOROUGH = [((1, 2, 4), 1.0), ((2, 2, 4), 1.0), ((3, 2, 4), 1.0), ((4, 2, 4), 1.0), ((2, 3, 6), 1.0), ((1, 3, 6), 1.0),
             ((3, 3, 6), 0.5), ((2, 4, 8), 0.5), ((3, 4, 8), 0.016), ((4, 3, 6), 0.016), ((2, 2, 16), 1.0),
             ((3, 2, 8), 0.5), ((2, 3, 12), 0.125)]
 EPS = 1e-12
+_BUF = {}
 
 
 def check_case(rep, case, stats):
@@ -30,7 +31,13 @@ def check_case(rep, case, stats):
         for label, g in gem.code_instances(name):
             try:
                 v0 = float(g(P.copy(), None if A is None else A.copy()))
-                v1, G = g(P.copy(), None if A is None else A.copy(), return_grad=True)
+                Ab = None
+                if A is not None:
+                    # same GEMINI object, same affinity BUFFER overwritten in place (as a caller reusing a kernel buffer would)
+                    Ab = _BUF.setdefault((name[:3], n), np.zeros((n, n)))
+                    g(P.copy(), Ab, return_grad=True)            # previous contents
+                    np.copyto(Ab, A)
+                v1, G = g(P.copy(), Ab, return_grad=True)
                 v2, G2 = g.evaluate(P.copy(), None if A is None else A.copy(), return_grad=True)
             except Exception as e:
                 rep.violation(f"n={n} K={k} P={case['a']}/{q} x={x}: {name}[{aff}] via {label} raised "
